@@ -34,6 +34,18 @@ def draw(rng, index):
     for vm in selected:
         if len(spec["vms"][vm]["variants"]) > 1 and rng.random() < 0.4:
             args.append(f"only_{vm}={rng.choice(spec['vms'][vm]['variants'])}")
+    if rng.random() < 0.2:
+        # a worker that can run some of the selected vms but not the one that comes last (net5 excludes the last variant of vm2
+        # and accepts only the last variant of vm1)
+        spec = suitegen.draw_spec(rng, n_vms=2, allow_multi_producer=False)
+        spec["vms"]["vm2"]["variants"] = ["B1", "B2"]
+        selected = ["vm1", "vm2"]
+        nets = " ".join(rng.sample(["net5", rng.choice(["net1", "net2", "net4"])], 2))
+        chain = [rng.choice(list(STATE_TOOLS) * 3 + list(MANAGE_TOOLS)) for _ in range(rng.randint(1, 3))]
+        args = ["setup=" + ",".join(chain), "vms=vm1,vm2", "nets=" + nets.replace(" ", ","), "marker_key=marker_value",
+                f"only_vm1={spec['vms']['vm1']['variants'][-1]}", "only_vm2=B2"]
+        for do in ("check", "get", "set", "unset", "push", "pop"):
+            args.append(f"{do}_state={rng.choice(['launch', 'st1', 'install'])}")
     case = {"tool": "manu", "suite_spec": spec, "nets": nets, "chain": chain, "args": args, "selected": selected,
             "plan": {"dur_mode": rng.choice(["short", "tied"]), "dur_seed": index, "by_class": {}}, "ignore_requirements": True,
             "watch_params": ["marker_key"]}
